@@ -5,11 +5,52 @@
 #include <iostream>
 #include <sstream>
 #include "bloch/compiler/lexer/lexer.hpp"
+#include "bloch/compiler/parser/parser.hpp"
+#include "bloch/compiler/ast/ast.hpp"
 #include "bloch/support/error/bloch_error.hpp"
 #include "verif_common.hpp"
 
 using namespace bloch;
 using bloch::compiler::TokenType;
+
+using namespace bloch::compiler;
+static std::string dumpType(Type* t) {
+    if (!t) return "?";
+    if (auto p = dynamic_cast<PrimitiveType*>(t)) return p->name;
+    if (dynamic_cast<VoidType*>(t)) return "void";
+    if (auto n = dynamic_cast<NamedType*>(t)) {
+        std::string s;
+        for (size_t i = 0; i < n->nameParts.size(); ++i) s += (i ? "." : "") + n->nameParts[i];
+        if (n->hasTypeArgumentList) { s += "<"; for (size_t i = 0; i < n->typeArguments.size(); ++i) s += (i ? "," : "") + dumpType(n->typeArguments[i].get()); s += ">"; }
+        return s;
+    }
+    if (auto a = dynamic_cast<ArrayType*>(t)) return dumpType(a->elementType.get()) + "[" + (a->size >= 0 ? std::to_string(a->size) : "") + "]";
+    return "?";
+}
+static std::string dumpExpr(Expression* e) {
+    if (!e) return "(nullptr)";
+    auto list = [&](const std::vector<std::unique_ptr<Expression>>& v) { std::string s; for (auto& x : v) s += " " + dumpExpr(x.get()); return s; };
+    if (auto x = dynamic_cast<LiteralExpression*>(e)) return "(lit " + x->literalType + " " + verif::hex(x->value) + ")";
+    if (dynamic_cast<NullLiteralExpression*>(e)) return "(null)";
+    if (auto x = dynamic_cast<VariableExpression*>(e)) return "(var " + x->name + ")";
+    if (dynamic_cast<ThisExpression*>(e)) return "(this)";
+    if (dynamic_cast<SuperExpression*>(e)) return "(super)";
+    if (auto x = dynamic_cast<MeasureExpression*>(e)) return "(measure " + dumpExpr(x->qubit.get()) + ")";
+    if (auto x = dynamic_cast<NewExpression*>(e)) return "(new " + dumpType(x->classType.get()) + list(x->arguments) + ")";
+    if (auto x = dynamic_cast<ArrayLiteralExpression*>(e)) return "(arr" + list(x->elements) + ")";
+    if (auto x = dynamic_cast<ParenthesizedExpression*>(e)) return "(paren " + dumpExpr(x->expression.get()) + ")";
+    if (auto x = dynamic_cast<CastExpression*>(e)) return "(cast " + dumpType(x->targetType.get()) + " " + dumpExpr(x->expression.get()) + ")";
+    if (auto x = dynamic_cast<UnaryExpression*>(e)) return "(un " + x->op + " " + dumpExpr(x->right.get()) + ")";
+    if (auto x = dynamic_cast<BinaryExpression*>(e)) return "(bin " + x->op + " " + dumpExpr(x->left.get()) + " " + dumpExpr(x->right.get()) + ")";
+    if (auto x = dynamic_cast<PostfixExpression*>(e)) return "(post " + x->op + " " + dumpExpr(x->left.get()) + ")";
+    if (auto x = dynamic_cast<CallExpression*>(e)) return "(call " + dumpExpr(x->callee.get()) + list(x->arguments) + ")";
+    if (auto x = dynamic_cast<IndexExpression*>(e)) return "(index " + dumpExpr(x->collection.get()) + " " + dumpExpr(x->index.get()) + ")";
+    if (auto x = dynamic_cast<MemberAccessExpression*>(e)) return "(member " + dumpExpr(x->object.get()) + " " + x->member + ")";
+    if (auto x = dynamic_cast<AssignmentExpression*>(e)) return "(assign " + x->name + " " + dumpExpr(x->value.get()) + ")";
+    if (auto x = dynamic_cast<ArrayAssignmentExpression*>(e)) return "(arrassign " + dumpExpr(x->collection.get()) + " " + dumpExpr(x->index.get()) + " " + dumpExpr(x->value.get()) + ")";
+    if (auto x = dynamic_cast<MemberAssignmentExpression*>(e)) return "(memassign " + dumpExpr(x->object.get()) + " " + x->member + " " + dumpExpr(x->value.get()) + ")";
+    return "(unknown-expr)";
+}
 
 int main(int argc, char** argv) {
     if (argc < 2) return 2;
@@ -39,6 +80,27 @@ int main(int argc, char** argv) {
                 auto q = body.find("\033[0m");
                 if (q != std::string::npos) body = body.substr(0, q);
                 printf("ERR %d %d %s\n", e.line, e.column, verif::hex(body).c_str());
+            } catch (const std::exception& e) {
+                printf("EXC %s\n", verif::hex(e.what()).c_str());
+            }
+        }
+        else if (cmd == "expr") {
+            // expr <hexsource>: parse `function main() -> void { echo(<source>); }` and dump the echo argument
+            std::string h; ls >> h;
+            std::string src = "function main() -> void { echo(" + verif::unhex(h) + "); }";
+            try {
+                Lexer lx(src);
+                Parser ps(lx.tokenize());
+                auto prog = ps.parse();
+                std::string out = "(no-echo)";
+                if (prog && !prog->functions.empty() && prog->functions[0]->body && !prog->functions[0]->body->statements.empty()) {
+                    if (auto ec = dynamic_cast<EchoStatement*>(prog->functions[0]->body->statements[0].get()))
+                        out = dumpExpr(ec->value.get());
+                    if (prog->functions[0]->body->statements.size() != 1) out += " extra-statements";
+                }
+                printf("%s\n", out.c_str());
+            } catch (const support::BlochError& e) {
+                printf("ERR %s %d %d\n", e.category == support::ErrorCategory::Parse ? "Parse" : (e.category == support::ErrorCategory::Lexical ? "Lexical" : "Other"), e.line, e.column);
             } catch (const std::exception& e) {
                 printf("EXC %s\n", verif::hex(e.what()).c_str());
             }
